@@ -5,6 +5,7 @@
 import Atto.Lemmas.Framing
 import Atto.Model.Compress
 import Atto.Model.Response
+import Atto.Lemmas.BodyReads
 namespace Atto
 open Atto.Framing
 
@@ -50,5 +51,79 @@ theorem cz_parseResponse_coding {m : Method} {mh cap : Nat} {t : Transport} {res
   · cases h
   · cases h
   · cases h
+
+/-- on a well-formed head the selection is made on the header fields the server sent -/
+theorem cz_head_coding (h : HeadS) (hh : h.WF Consts.maxLineLen) (rest : List Item) (t : Transport)
+    (cap mh : Nat) (m : Method) (hwf : wfT t) (hcap : 0 < cap)
+    (hmh : h.fields.length ≤ mh) (hms : h.fields.length ≤ Headers.maxSize)
+    (hflat : flatT t = bytesI h.render ++ rest) {resp : Resp}
+    (hp : parseResponse m mh cap t = .ok resp) :
+    resp.rawHeaders = h.seen ∧ resp.coding = selectCoding m h.seen := by
+  obtain ⟨r1, h1, _, _⟩ := head_buf h hh rest t cap mh hwf hcap hmh hms hflat
+  have h1' : parseResponseHead bufSrc { buf := [], cap := cap, inner := t } mh =
+      (.ok (h.code, h.seen), r1) := h1
+  simp only [parseResponse, h1'] at hp
+  split at hp
+  · cases hp
+  · cases hp; exact ⟨rfl, rfl⟩
+
+/-! ### a decoder as a consumer of `Body.read` -/
+
+/-- what a consumer that stops at the first non-`Ok` result has been handed -/
+def cz_pullEv : List Ev → Bytes
+  | .ok bs :: es => bs ++ cz_pullEv es
+  | _ => []
+
+theorem cz_pullEv_prefix : ∀ evs : List Ev, cz_pullEv evs <+: deliveredEv evs := by
+  intro evs
+  induction evs with
+  | nil => simp [cz_pullEv]
+  | cons e es ih =>
+    cases e with
+    | ok bs => simp only [cz_pullEv, deliveredEv]; exact (List.prefix_append_right_inj bs).mpr ih
+    | err e => simp [cz_pullEv]
+    | blocked => simp [cz_pullEv]
+    | panic => simp [cz_pullEv]
+
+theorem cz_pullEv_allOk : ∀ evs : List Ev, (∀ e ∈ evs, e.isOk) → cz_pullEv evs = deliveredEv evs := by
+  intro evs
+  induction evs with
+  | nil => intro _; rfl
+  | cons e es ih =>
+    intro h
+    have he := h e (by simp)
+    cases e with
+    | ok bs => simp only [cz_pullEv, deliveredEv]; rw [ih (fun e he => h e (by simp [he]))]
+    | err e => simp [Ev.isOk] at he
+    | blocked => simp [Ev.isOk] at he
+    | panic => simp [Ev.isOk] at he
+
+theorem cz_deliveredEv_take_prefix : ∀ (evs : List Ev) (i : Nat),
+    deliveredEv (evs.take i) <+: deliveredEv evs := by
+  intro evs
+  induction evs with
+  | nil => intro i; simp
+  | cons e es ih =>
+    intro i
+    cases i with
+    | zero => simp
+    | succ i =>
+      rw [List.take_succ_cons, deliveredEv_cons, deliveredEv_cons]
+      exact (List.prefix_append_right_inj _).mpr (ih i)
+
+/-- the shape of the C01 conclusions, read by a consumer that stops at the first non-`Ok` -/
+theorem cz_pull_complete (evs : List Ev) (ns : List Nat) (payload : Bytes)
+    (hok : ∀ e ∈ evs, e.isOk) (hpre : deliveredEv evs <+: payload)
+    (hend : ∀ i (hi : i < ns.length), 0 < ns[i] → evs[i]? = some (.ok []) →
+      deliveredEv (evs.take i) = payload) :
+    cz_pullEv evs <+: payload ∧
+    ((∃ i, ∃ hi : i < ns.length, 0 < ns[i] ∧ evs[i]? = some (.ok [])) → cz_pullEv evs = payload) := by
+  rw [cz_pullEv_allOk evs hok]
+  refine ⟨hpre, ?_⟩
+  rintro ⟨i, hi, hpos, hev⟩
+  have h1 := hend i hi hpos hev
+  have h2 := cz_deliveredEv_take_prefix evs i
+  rw [h1] at h2
+  exact List.IsPrefix.eq_of_length_le hpre h2.length_le
 
 end Atto
